@@ -127,6 +127,8 @@ func (e *Engine) verifyFunction(fn *ssa.Function, ct *Contract) {
 	}
 	st.entry = st.snapshot()
 	entryAllocs := len(st.allocs)
+	e.topVars, e.topPkg = vars, pkg
+	e.crashCheck(fr, st, "function entry")
 	// vacuity: the precondition must be satisfiable
 	e.addObligationExpect(st, fr, "vacuity:requires-satisfiable", []string{"vacuity"}, "requires", fn.String(), "sat")
 
@@ -800,5 +802,22 @@ func (e *Engine) loopFrame(fr *Frame, st *State, c *Contract, ord int, pre map[s
 		} else {
 			e.addObligation(st, fr, "invariant-preserved", []string{"frame"}, fmt.Sprintf("loop#%d frame: heap %s unchanged for objects that existed at function entry", ord, k), fr.fn.String(), f, nil)
 		}
+	}
+}
+
+// crashCheck asserts the crash invariants of the function under verification at an external-call boundary:
+// a crash there leaves exactly the durable state that the invariant describes.
+func (e *Engine) crashCheck(fr *Frame, st *State, where string) {
+	if e.curC == nil || len(e.curC.Crash) == 0 {
+		return
+	}
+	ctx := &EvalCtx{e: e, st: st, old: st.entry, vars: e.topVars, c: e.curC, pkg: e.topPkg}
+	for _, ci := range e.curC.Crash {
+		v, err := ctx.evalAs(ci.E, sBool)
+		if err != nil {
+			e.errorf("%s: crash_invariant %q: %v", e.curFn, ci.Src, err)
+			continue
+		}
+		e.addObligation(st, fr, "crash-invariant", ci.Tags, "crash_invariant "+ci.Src+"  @ "+where, fmt.Sprintf("%s:%d", ci.File, ci.Line), v.T, nil)
 	}
 }
